@@ -226,6 +226,19 @@ Theorem C05_model_type_consistent : forall m r, translate prims m = Ok r ->
 Proof. exact (model_type_consistent_acc prims). Qed.
 Print Assumptions C05_model_type_consistent.
 
+(** Closed form: a class of an accepted meta-model has with_model_type exactly if it, or a
+    class it reaches through its bases, declares [with_model_type=True] ([skipped] = the
+    constrained primitives, which never take part). *)
+Theorem C05_model_type_closed : forall m r, translate prims m = Ok r ->
+  exists (skipped : name -> bool),
+    forall c, In c m ->
+      exists ci, class_ir r (c_name c) = Some ci /\ skipped (c_name c) = i_is_cp ci
+        /\ (i_is_cp ci = false ->
+              (i_wmt ci = Some true <->
+               exists a, In a m /\ reach prims m skipped (c_name c) (c_name a) /\ c_wmt a = Some true)).
+Proof. exact (model_type_closed_acc prims). Qed.
+Print Assumptions C05_model_type_closed.
+
 (** Non-vacuity: the diamond A; B(A); C(A); D(B,C) is well-formed, accepted, and resolved
     without duplicates; every property is assigned exactly once in D's in-lined constructor. *)
 Open Scope string_scope.
